@@ -484,7 +484,7 @@ func init() {
 	ps := &PropSpec{
 		ID: "C15", Level: "exploration",
 		Verdict: []string{"ov."},
-		Rule: "storage-only world: 4-5 identifiers (two owners plus one temporary id) x 3 slab versions (registers in the library's own format), thousands of short random walks over {store, remove, retrieve, retrieve-if-loaded, cache-bypassing retrieve with/without caching, both commits with 1-4 workers and injected write faults, drop-deltas, drop-cache, batch-preload of subsets incl. the parallel path, storage re-creation, full sweeps}; after every step the overlay model (base/delta/cache per id) must agree on every returned slab (by register bytes), on all pending-change observers, on is-loaded (judged by meaning) and on the ledger contents; closure measure: distinct (base,delta,cache) states per id and distinct (state,step-kind) transitions reached, with the step at which the last new one appeared. Non-trivial = a walk with >= 1 commit and >= 1 eviction or re-creation; distinct by trace hash",
+		Rule: "storage-only world: 4-5 identifiers (two owners plus one temporary id) x 3 slab versions (registers in the library's own format), thousands of short random walks over {store, remove, retrieve, retrieve-if-loaded, cache-bypassing retrieve with/without caching, both commits with 1-4 workers and injected write faults, reads whose ledger access or element decoder fails (an error; nothing learnt about the slab), drop-deltas, drop-cache, batch-preload of subsets incl. the parallel path, storage re-creation, full sweeps}; after every step the overlay model (base/delta/cache per id) must agree on every returned slab (by register bytes), on all pending-change observers, on is-loaded (judged by meaning) and on the ledger contents; closure measure: distinct (base,delta,cache) states per id and distinct (state,step-kind) transitions reached, with the step at which the last new one appeared. Non-trivial = a walk with >= 1 commit and >= 1 eviction or re-creation; distinct by trace hash",
 		ExpectedReach: []string{"op.s.commit", "op.s.preload", "op.s.recreate", "op.s.dropdeltas", "op.s.dropcache", "commit.partial", "op.s.bypass"},
 	}
 	walk := func(tr *Trace, r *Rng, agg *Stats) *RunResult {
